@@ -30,10 +30,29 @@ import (
 
 type c20Node struct {
 	rpcclientmock.Client
-	e *Env
+	e    *Env
+	seen *[]fttypes.QueryFile // the File queries the commands sent
 }
 
 func (n c20Node) ABCIQueryWithOptions(_ context.Context, path string, data tmbytes.HexBytes, _ rpcclient.ABCIQueryOptions) (*coretypes.ResultABCIQuery, error) {
+	if path == "/canine_chain.filetree.Query/File" {
+		var req fttypes.QueryFile
+		if err := req.Unmarshal(data); err != nil {
+			return nil, err
+		}
+		if n.seen != nil {
+			*n.seen = append(*n.seen, req)
+		}
+		res, err := n.e.App.FileTreeKeeper.File(sdk.WrapSDKContext(n.e.Ctx), &req)
+		if err != nil {
+			return nil, err
+		}
+		bz, err := res.Marshal()
+		if err != nil {
+			return nil, err
+		}
+		return &coretypes.ResultABCIQuery{Response: abci.ResponseQuery{Value: bz}}, nil
+	}
 	if path != "/canine_chain.filetree.Query/PubKey" {
 		return nil, fmt.Errorf("unexpected query %s", path)
 	}
@@ -66,8 +85,9 @@ func c20CLI(r *RunCtx) error {
 		return err
 	}
 	e.App.FileTreeKeeper.SetPubkey(e.Ctx, fttypes.Pubkey{Address: alice, Key: key.PublicKey.Hex(false)})
+	var queried []fttypes.QueryFile
 	cctx := client.Context{}.WithCodec(enc.Marshaler).WithInterfaceRegistry(enc.InterfaceRegistry).WithTxConfig(enc.TxConfig).
-		WithLegacyAmino(enc.Amino).WithKeyring(keyring.NewInMemory()).WithClient(c20Node{e: e}).WithChainID("verif")
+		WithLegacyAmino(enc.Amino).WithKeyring(keyring.NewInMemory()).WithClient(c20Node{e: e, seen: &queried}).WithChainID("verif")
 	run := func(cmd *cobra.Command, args ...string) (sdk.Msg, error) {
 		out, err := clitestutil.ExecTestCLICmd(cctx, cmd, append(args, "--from="+alice, "--generate-only"))
 		if err != nil {
@@ -86,7 +106,7 @@ func c20CLI(r *RunCtx) error {
 	// along, next to ordinary ones
 	special := []string{"\u6771\u4eac\u3000\u5199\u771f.jpg", "\u6771\u4eac\u5199\u771f.jpg", "a\u00a0b.txt", "ab.txt", "tab\there", "tabhere",
 		"\U0001F468\u200d\U0001F469\u200d\U0001F467.png", "\u0645\u06cc\u200c\u062e\u0648\u0627\u0647\u0645.txt", "line\rfeed", "bom\ufeffname", "soft\u00adhyphen",
-		"\u00dcn\u00efc\u00f6d\u00e9", "\u65e5\u672c\u8a9e", "100%", "x y", "e\u0301.txt", "\u202ertl.txt", "2024\\report.txt", "back\\slash"}
+		"\u00dcn\u00efc\u00f6d\u00e9", "\u65e5\u672c\u8a9e", "100%", "x y", "e\u0301.txt", "cafe\u0301", "\u212b", "\u2126", "\u1112\u1161\u11ab", "my%20file.txt", "100%25.txt", "%41", "a%2Fb", "docs%2F2024", "\u202ertl.txt", "2024\\report.txt", "back\\slash"}
 	n := r.Scale(60, 400)
 	for i := 0; i < n; i++ {
 		k := 2 + p.Intn(4)
@@ -134,6 +154,22 @@ func c20CLI(r *RunCtx) error {
 		r.Hist("cli", "post-file")
 		if fttypes.AddToMerkle(pm.HashParent, pm.HashChild) != ref(path) {
 			r.Finding("C20/client-split", "the post-file command sends a parent address and child hash that do not combine to the address of the plain path it was given", d)
+		}
+		// the query a client looks an entry up with by its plain path: it asks the node for the path's address
+		{
+			queried = queried[:0]
+			_, qerr := clitestutil.ExecTestCLICmd(cctx, ftcli.CmdShowFileFromPath(), []string{path, alice})
+			if len(queried) == 1 {
+				d3 := map[string]interface{}{"cmd": "show-file-from-path", "path": path, "path_hex": hex.EncodeToString([]byte(path)), "address": queried[0].Address, "answer": fmt.Sprint(qerr)}
+				r.Case("fn", fmt.Sprintf("MPath %s %s", cStr(path), cStr(queried[0].Address)), d3)
+				r.Count("cli-show:"+path, true)
+				r.Hist("cli", "show-file-from-path")
+				if queried[0].Address != ref(path) {
+					r.Finding("C20/client-address", "the show-file-from-path query asks for something else than the address of the plain path it was given", d3)
+				}
+			} else {
+				r.Hist("cli", fmt.Sprintf("show-file-from-path sent %d queries", len(queried)))
+			}
 		}
 		for name, cmd := range map[string]func() (sdk.Msg, error){
 			"delete-file":   func() (sdk.Msg, error) { return run(ftcli.CmdDeleteFile(), path, alice) },
